@@ -362,6 +362,22 @@ func registerExtlib(ex *Executor) {
 		}
 		return smt.App("b64", smt.String, s), cNext
 	}
+	// base62.RandomWithReader(n, r): like Random, reading from r — a caller-supplied io.Reader whose state every call
+	// mutates (logged as a write to the reader object, so that a reader shared between goroutines without a lock is a race)
+	I["github.com/hashicorp/go-secure-stdlib/base62.RandomWithReader"] = func(ex *Executor, st *State, cc *CallCtx, args []Val) (Val, ctl) {
+		if iv, ok := args[1].(IfaceV); ok {
+			if p, ok := iv.V.(Ptr); ok && p.Obj != nil {
+				ex.logAccess(st, Ptr{Obj: p.Obj}, true)
+			}
+		}
+		return ex.Intr["github.com/hashicorp/go-secure-stdlib/base62.Random"](ex, st, cc, args[:1])
+	}
+	// bufio.NewReaderSize(r, n): an opaque reader object (only its identity matters to the models above)
+	I["bufio.NewReaderSize"] = func(ex *Executor, st *State, cc *CallCtx, args []Val) (Val, ctl) {
+		t := ex.lookupType("bufio", "Reader")
+		return ex.alloc(st, t, "bufio.Reader", ex.zero(t)), cNext
+	}
+	I["bufio.NewReader"] = I["bufio.NewReaderSize"]
 	// base62.Random(n): a fresh non-empty string, or an error
 	I["github.com/hashicorp/go-secure-stdlib/base62.Random"] = func(ex *Executor, st *State, cc *CallCtx, args []Val) (Val, ctl) {
 		fail := smt.Var(fmt.Sprintf("nd%d_%s", len(st.ND), "randfail"), smt.Bool)
